@@ -647,6 +647,54 @@ def cartesian_parallel(ctx, repo, pid="C02"):
                     witness=f"areas per polygon: {sorted(c1)}, polygons per stored entry: {sorted(c2)}")
 
 
+def cartesian_closing_layer(ctx, repo):
+    """COEF: in the Cartesian position mode the outermost cells are closed by one more layer of points, placed one LAST radial step above
+    the last layer (r_last + (r_last - r_prev)); any other step (the first one, a mean one) moves the outer faces of the last shell."""
+    pg = repo.cls(FG, "PositionGrid")
+    init = pg.methods.get("__init__")
+    if init is None:
+        return
+    from ..astutil import Canon
+    cn = Canon(Canon.single_defs(init.node.body))
+    cands = []
+    for n in ast.walk(init.node):
+        if isinstance(n, ast.Call) and isinstance(n.func, ast.Attribute) and n.func.attr == "append" and n.args and isinstance(n.args[0], ast.BinOp) and \
+                isinstance(n.args[0].op, ast.Add):
+            cands.append(n.args[0])
+        if isinstance(n, ast.List) and any(isinstance(e_, ast.Starred) for e_ in n.elts) and isinstance(n.elts[-1], ast.BinOp) and \
+                isinstance(n.elts[-1].op, ast.Add):
+            cands.append(n.elts[-1])
+    cands = [c for c in cands if src(c.left).replace(" ", "").endswith("[-1]")]
+    ctx.instance("COEF")
+    if len(cands) != 1:
+        ctx.inconclusive("COEF", "C02.cartesian.closing_layer", "construction of the closing layer of the Cartesian tessellation not recognised", init.where)
+        return
+    step = cands[0].right
+    alts = [step.body, step.orelse] if isinstance(step, ast.IfExp) else [step]
+    verdicts = []
+    for a in alts:
+        e = cn.expand(a)
+        t = src(e).replace(" ", "")
+        if isinstance(e, ast.Subscript) and t.endswith("[-1]") and "increments" in t and "[1:]" not in t.replace("[1:][-1]", ""):
+            verdicts.append("last")
+        elif isinstance(e, ast.Subscript) and "increments" in t and (t.endswith("[0]") or t.endswith("[1]")):
+            verdicts.append("first")
+        elif isinstance(e, ast.Subscript) and t.endswith("[-1]") and "increments" in t:
+            verdicts.append("last")
+        else:
+            verdicts.append("?")
+    if "first" in verdicts:
+        ctx.violate("COEF", "C02.cartesian.closing_layer", "the layer of points that closes the outermost Cartesian cells is placed one FIRST radial "
+                    "step above the last layer instead of one LAST step: with non-uniform radii the outer faces of the last shell move, its "
+                    "volumes and same-shell border areas change (three or more radii)", init.where, src(cands[0])[:120],
+                    witness=f"step = {src(step)[:100]}")
+    elif all(v == "last" for v in verdicts):
+        ctx.ok("COEF", "C02.cartesian.closing_layer", "the closing layer of the Cartesian tessellation sits one last radial step above the last layer",
+               init.where, src(cands[0])[:120])
+    else:
+        ctx.inconclusive("COEF", "C02.cartesian.closing_layer", "radial step of the closing layer not recognised", init.where, witness=src(step)[:120])
+
+
 def run(ctx, repo, tier):
     for nb_ctx in ("sym", "one") + ((2, 3) if tier == "thorough" else ()):
         for prop in GETTERS:
@@ -665,6 +713,7 @@ def run(ctx, repo, tier):
     volumes_check(ctx, repo, "C02")
     cartesian_zero_borders(ctx, repo)
     cartesian_parallel(ctx, repo, "C02")
+    cartesian_closing_layer(ctx, repo)
     # ------------------------------------------------------------ inherited: the position matrix P itself (C05): the Kronecker lift above keeps
     # symmetry / one common pattern only if P has them
     from ..driver import PrefixCtx
